@@ -7,11 +7,11 @@ Require Import Verif.Model.C17 Verif.Spec.C17 Verif.Proof.C17 Verif.Proof.C17_b.
 
 (* Init never panics - for EVERY configuration, well-typed or not - and on a well-typed
    configuration that Init accepts, building the default stack of any of its endpoints
-   does not panic either (all modelled indexing / slicing / assertion sites). *)
+   does not panic either, whatever files are readable at that moment (all modelled indexing / slicing / assertion sites). *)
 Theorem C17_total : forall clean_host to_lower s, well_typed s ->
   (forall site, init clean_host to_lower s <> Panic site) /\
   (forall c, init clean_host to_lower s = Ok c ->
-     forall e, In e (s_endpoints c) -> forall site, factory_new e <> FPanic site).
+     forall readable e, In e (s_endpoints c) -> forall site, factory_new readable e <> FPanic site).
 Proof. exact total. Qed.
 Print Assumptions C17_total.
 
@@ -43,7 +43,7 @@ Print Assumptions C17_canonical_idempotent.
 
 (* the repaired graphql.New: no string value reaches an index or slice out of range *)
 Theorem C17_graphql_new_total : forall vars site, gql_new vars <> FPanic site.
-Proof. intros vars site. exact (graphql_mw_no_panic [(ns_graphql, JObj [("variables", JObj vars)])] site). Qed.
+Proof. intros vars site. exact (graphql_mw_no_panic (fun _ => false) [(ns_graphql, JObj [("variables", JObj vars)])] site). Qed.
 Print Assumptions C17_graphql_new_total.
 
 (* the boolean oracles decide the Props *)
@@ -61,8 +61,8 @@ Proof. exact spec_b_iff. Qed.
 Print Assumptions C17_oracle_decides_spec.
 
 (* the executable model satisfies the oracle on every well-typed (indeed every) configuration *)
-Theorem C17_model_meets_oracle : forall tbl to_lower s,
-  spec_b tbl s (obs_of (init (tbl_fun tbl) to_lower s)) = true.
+Theorem C17_model_meets_oracle : forall tbl readable to_lower s,
+  spec_b tbl s (obs_of readable (init (tbl_fun tbl) to_lower s)) = true.
 Proof. intros. apply spec_b_iff. apply model_spec. Qed.
 Print Assumptions C17_model_meets_oracle.
 
@@ -97,7 +97,7 @@ Example C17_ex_well_typed :
   well_typed_b (ex_svc 3 [ex_endpoint "/a/{id}" "" [ex_backend "/b/{id}/{resp0_x}" ["h"] (ex_gql "{}")]]) = true.
 Proof. vm_compute. reflexivity. Qed.
 Example C17_ex_accepted :
-  obs_of (init ex_clean (fun x => x) (ex_svc 3 [ex_endpoint "/a/{id}" "" [ex_backend "/b/{id}/{resp0_x}" ["h"] (ex_gql "{}")]]))
+  obs_of (fun _ => false) (init ex_clean (fun x => x) (ex_svc 3 [ex_endpoint "/a/{id}" "" [ex_backend "/b/{id}/{resp0_x}" ["h"] (ex_gql "{}")]]))
   = OOk [ {| oe_method := "GET"; oe_timeout := 2000000000; oe_cc := 1; oe_hdrs := ["Content-Type"];
              oe_backends := [ {| ob_host := ["http://h"]; ob_method := "GET"; ob_url := "/b/{{.Id}}/{{.Resp0_x}}";
                                  ob_keys := ["Id"; "Resp0_x"]; ob_dec := DJson; ob_timeout := 2000000000;
@@ -123,9 +123,17 @@ Example C17_ex_must_reject : must_reject_b ex_clean (ex_svc 3 [ex_endpoint "/a/{
 Proof. vm_compute. reflexivity. Qed.
 (* the panic sites are reachable outside the quantifier: the hypotheses of C17_total are needed *)
 Example C17_ex_dns_no_host :
-  factory_new (ex_endpoint "/a" "" [ {| b_host := []; b_nosan := false; b_method := "GET"; b_url := "/b"; b_enc := "";
+  factory_new (fun _ => false) (ex_endpoint "/a" "" [ {| b_host := []; b_nosan := false; b_method := "GET"; b_url := "/b"; b_enc := "";
      b_coll := false; b_sd := "dns"; b_hdrs := []; b_allow := []; b_mapping := []; b_extra := [];
      b_keys := []; b_dec := DJson; b_timeout := 1; b_cc := 1 |} ]) = FPanic "dnssrv/subscriber.go:46 cfg.Host[0]".
+Proof. vm_compute. reflexivity. Qed.
+(* a GraphQL section whose query_path cannot be read is skipped (no stage), a readable one is used *)
+Example C17_ex_query_path_unreadable :
+  gql_options (fun _ => false) [(ns_graphql, JObj [("query_path", JStr "/missing"); ("variables", JObj [("a", JStr "")])])] = None.
+Proof. vm_compute. reflexivity. Qed.
+Example C17_ex_query_path_readable :
+  gql_options (fun _ => true) [(ns_graphql, JObj [("query_path", JStr "/q.graphql"); ("variables", JObj [("a", JStr "")])])]
+  = Some [("a", JStr "")].
 Proof. vm_compute. reflexivity. Qed.
 Example C17_ex_combiner_not_string :
   merge_new [(ns_proxy, JObj [("combiner", JNum "5")])] = FPanic "merging.go:438 v.(string)".
